@@ -151,6 +151,7 @@ func C08(p *load.Prog, r *oblig.Run) {
 	c08DeepEqual(p, r)
 	// children are matched with Equals: a node that is not equal to its own copy cannot give an all-two-sided diff
 	c07PairSearch(p, r)
+	c09KindOnlyEquals(p, r)
 	r.Rule("R07.e", "list equality answers true only for lists of equal length (the relation children are matched with is symmetric in the child counts)", 1)
 	c07ListEquality(p, r)
 	bitMarks(p, r, "R07.k")
@@ -202,6 +203,7 @@ func C09(p *load.Prog, r *oblig.Run) {
 	// which children are merged is decided by the Equals methods: a value used while its error is thrown away there
 	// (every malformed identifier becomes the same empty one) merges nodes that are not equal (C10's R10.b)
 	defer c10Errors(p, r)
+	c09KindOnlyEquals(p, r)
 	c09TypedNil(p, r)
 	c09Accounts(p, r)
 	// merging matches children with Equals (C07's pair-search rules) and is built from deep copies
